@@ -12,6 +12,21 @@ CHECKS = {
             "Every case of the declared finite universe is encoded three ways (ST, MT, frame-level) and decoded by claxon and by an RFC 9639 reference decoder; exhaustive within the stated deviation bound, not sampled.",
             "Trusts claxon 0.4.3 and the harness's own reference decoder (cross-checked against each other on every case); inputs limited to the atoms/coordinates of DESIGN 2.3.",
             "DESIGN.md 3 C01"),
+    "C04": ("exploration",
+            "exhaustive enumeration of every input length (0..=3*bs for small block sizes, every residue for large ones) x content x width x mode; STREAMINFO bounds compared with frames parsed by a reference decoder",
+            "Complete over input length for the listed block sizes: every stream is parsed by the RFC 9639 reference parser and by claxon; bounds must be valid (>=16, <= non-final frames, == requested max) and frame-size fields exact.",
+            "Content limited to three atoms x two channel counts x three widths; default configuration (the universe checks C01/C02 cover configurations).",
+            "DESIGN.md 3 C04"),
+    "C09": ("exploration",
+            "exhaustive enumeration of the dense group G9 (width x loud atoms x Rice cap 0..=14 x order selection x predictor switches x channel setups x block sizes) plus U_2/U_3; frame byte spans from a reference parser compared with the verbatim bound",
+            "Every frame of every case is measured by an independent parser and compared with the size of the verbatim encoding plus the statement's slack of two bytes per channel.",
+            "Signals limited to the atom alphabet (loud/heavy-tailed atoms emphasised); sizes of streams above 64 MiB come from count_bits (C08 establishes its exactness).",
+            "DESIGN.md 3 C09"),
+    "C13": ("exploration",
+            "exhaustive enumeration of emitted residuals (U_2/U_3 + G9) and of a direct grid on the Rice search seam, each compared with a brute-force optimum over the encoder's search space",
+            "For every fixed/LPC subframe emitted in the universe the coded residual size equals the brute-force minimum over admissible partition orders x parameters 0..=cap (judged below 2^28 bits).",
+            "Brute force shares no code with the subject (u64 arithmetic, no saturation); residual alphabet limited to what the atoms produce plus the seam grid.",
+            "DESIGN.md 3 C13"),
 }
 
 PENDING_REASON = "check not built yet in this session (work in progress; will be claimed once its engine lands)"
@@ -56,7 +71,7 @@ def main():
         ],
         "checks": checks,
         "not_applicable": [{"property_id": p, "reason": PENDING_REASON} for p in ALL if p not in CHECKS],
-        "notes": "See DESIGN.md. Known findings: /verif/known_findings.jsonl. Exit 2 from a check means a machinery failure, never a verdict.",
+        "notes": "See DESIGN.md. Known findings: /verif/known_findings.txt. Exit 2 from a check means a machinery failure, never a verdict.",
     }
     with open(os.path.join(ROOT, "MANIFEST.json"), "w") as f:
         json.dump(manifest, f, indent=1)
